@@ -20,6 +20,7 @@ type GuardRow struct {
 	Exempt    map[string]string   // "Type.method" or "func" -> reason (access tabled as outside the statement)
 	ReadsOK   map[string]string   // field -> reason: unlocked *reads* of this field are tolerated (writes still need W)
 	WOnly     bool                // only writes are checked (self-synchronising value; see DESIGN)
+	WriteMode LockMode            // mode a write needs (default W); R for a self-synchronising value whose guard only excludes whole-structure operations
 	// ViaRecvType: the guarded struct has no mutex of its own; its fields are protected by the mutex
 	// <receiver>.<Mutex> of the enclosing method, whose receiver must be of this type (e.g. the
 	// chain pointers of orderedmap.Element are guarded by OrderedMap.mutex).
@@ -121,6 +122,10 @@ func checkGuards(r *Reporter, p *Prog, rule string, rows []GuardRow) {
 	var callSites map[string]int          // "Type.method" -> direct call sites seen
 	var escapes map[string]string         // "Type.method" -> why it cannot be a helper
 	fnDecls := map[string]*ast.FuncDecl{} // funcKey -> decl
+	handledLits := map[string]map[*ast.FuncLit]bool{}
+	for _, pkg := range pkgList {
+		handledLits[pkg] = handledFactoryLits(p, pkg)
+	}
 	for round := 0; ; round++ {
 		aggs = map[aggKey]*agg{}
 		touched = map[string]int{}
@@ -212,7 +217,7 @@ func checkGuards(r *Reporter, p *Prog, rule string, rows []GuardRow) {
 				}
 				fresh := freshLocals(info, fd.Body)
 				seen := map[ast.Node]bool{}
-				opts := &FlowOpts{Info: info, SyncCallee: syncCalleeDefault(info)}
+				opts := &FlowOpts{Info: info, SyncCallee: syncCalleeDefault(info), SkipLit: func(l *ast.FuncLit) bool { return handledLits[pkg][l] }}
 				var chCall func(x ast.Node, se *ast.SelectorExpr, stack []ast.Node, held LockSet)
 				chCall = func(x ast.Node, se *ast.SelectorExpr, stack []ast.Node, held LockSet) {
 					sel := info.Selections[se]
@@ -311,11 +316,116 @@ func checkGuards(r *Reporter, p *Prog, rule string, rows []GuardRow) {
 						}
 					}
 				}
+				fieldAccess := func(x *ast.SelectorExpr, sel *types.Selection, fv *types.Var, hops int, viaMethod string, stack []ast.Node, held LockSet) {
+					gf, ok := byVar[fv.Origin()]
+					if !ok {
+						return
+					}
+					if seen[x] {
+						return
+					}
+					seen[x] = true
+					touched[gf.row.Type+"."+gf.field]++
+					if ro := rootObj(info, x.X); ro != nil && fresh[ro] {
+						return
+					}
+					muts := map[string]bool{}
+					for _, m := range gf.row.Mutators[gf.field] {
+						muts[m] = true
+					}
+					write := isWriteAccess(x, stack, muts)
+					if viaMethod != "" {
+						write = muts[viaMethod]
+					}
+					if !write && gf.row.WOnly {
+						return
+					}
+					exKey := fd.Name.Name
+					if recvT != "" {
+						exKey = recvT + "." + fd.Name.Name
+					}
+					if _, ex := gf.row.Exempt[exKey]; ex {
+						return
+					}
+					if _, ok := gf.row.ReadsOK[gf.field]; ok && !write {
+						return
+					}
+					need := ModeR
+					modeS := "R"
+					if write {
+						need = ModeW
+						modeS = "W"
+						if gf.row.WriteMode != ModeNone {
+							need = gf.row.WriteMode // the structure synchronises itself; the guard only orders it against whole-structure operations
+						}
+					}
+					k := aggKey{fkey, gf.row.Type + "." + gf.field, modeS}
+					a := aggs[k]
+					if a == nil {
+						a = &agg{first: p.posStr(x.Pos())}
+						aggs[k] = a
+					}
+					a.n++
+					base, okp := pathOf(info, x.X)
+					if !okp {
+						a.bad = append(a.bad, fmt.Sprintf("%s: base of access is not an access path; cannot identify its mutex", p.posStr(x.Pos())))
+						return
+					}
+					base += embeddedChain(sel, hops)
+					want := base + "." + gf.row.Mutex
+					if gf.row.ViaRecvType != "" {
+						if recvT != gf.row.ViaRecvType || recvPath == "" {
+							a.bad = append(a.bad, fmt.Sprintf("%s: %s.%s is accessed outside a method of %s, whose mutex guards it", p.posStr(x.Pos()), gf.row.Type, gf.field, gf.row.ViaRecvType))
+							return
+						}
+						want = recvPath + "." + gf.row.Mutex
+					}
+					if held[want] >= need && len(stack) >= 1 {
+						// the guarded container itself (map, slice, channel) handed out by a method that
+						// takes the lock on its own: the caller walks or changes it after the unlock
+						if _, isRet := stack[len(stack)-1].(*ast.ReturnStmt); isRet {
+							switch fv.Type().Underlying().(type) {
+							case *types.Map, *types.Slice:
+								a.bad = append(a.bad, fmt.Sprintf("%s: %s is returned by reference from inside the critical section of %s: the caller reads or ranges over the guarded %s after the lock is released", p.posStr(x.Pos()), displayPath(base)+"."+gf.field, displayPath(want), map[bool]string{true: "map", false: "slice"}[isMapType(fv.Type())]))
+							}
+						}
+					}
+					if held[want] < need && !condLocked(x.Pos(), want) {
+						a.bad = append(a.bad, fmt.Sprintf("%s: %s of %s needs %s held %s, held: %s", p.posStr(x.Pos()), map[bool]string{true: "write", false: "read"}[write], displayPath(base)+"."+gf.field, displayPath(want), need.String(), held))
+						fnN := needs[fkey]
+						if fnN == nil {
+							fnN = &fnNeed{row: gf.row, recvOnly: true}
+							needs[fkey] = fnN
+						}
+						if need > fnN.mode {
+							fnN.mode = need
+						}
+						if recvPath == "" || want != recvPath+"."+gf.row.Mutex || (recvT != gf.row.Type && recvT != gf.row.ViaRecvType) || fnN.row.Mutex != gf.row.Mutex || fnN.row.Pkg != gf.row.Pkg {
+							fnN.recvOnly = false
+						}
+					}
+				}
 				AnalyzeLocks(fd.Body, entry, opts, func(n ast.Node, stack []ast.Node, held LockSet) {
 					switch x := n.(type) {
 					case *ast.SelectorExpr:
 						sel := info.Selections[x]
 						if sel != nil && sel.Kind() == types.MethodVal {
+							// a method promoted from an embedded guarded field (`s.Set(k)` for `s.Map.Set(k)`):
+							// an access to that field through the method
+							if idx := sel.Index(); len(idx) > 1 {
+								t := sel.Recv()
+								for h := 0; h < len(idx)-1; h++ {
+									st := structOf(t)
+									if st == nil {
+										break
+									}
+									fld := st.Field(idx[h])
+									if _, guarded := byVar[fld.Origin()]; guarded {
+										fieldAccess(x, sel, fld, h, x.Sel.Name, stack, held)
+									}
+									t = fld.Type()
+								}
+							}
 							// a method value that is not called on the spot escapes
 							isCallee := false
 							for i := len(stack) - 1; i >= 0; i-- {
@@ -357,91 +467,26 @@ func checkGuards(r *Reporter, p *Prog, rule string, rows []GuardRow) {
 						if sel == nil || sel.Kind() != types.FieldVal {
 							return
 						}
+						// a field reached through an embedded guarded field (`s.Map` for `s.inner.Map`)
+						if idx := sel.Index(); len(idx) > 1 {
+							t := sel.Recv()
+							for h := 0; h < len(idx)-1; h++ {
+								st := structOf(t)
+								if st == nil {
+									break
+								}
+								fld := st.Field(idx[h])
+								if _, guarded := byVar[fld.Origin()]; guarded {
+									fieldAccess(x, sel, fld, h, "", stack, held)
+								}
+								t = fld.Type()
+							}
+						}
 						fv, _ := sel.Obj().(*types.Var)
 						if fv == nil {
 							return
 						}
-						gf, ok := byVar[fv.Origin()]
-						if !ok {
-							return
-						}
-						if seen[x] {
-							return
-						}
-						seen[x] = true
-						touched[gf.row.Type+"."+gf.field]++
-						if ro := rootObj(info, x.X); ro != nil && fresh[ro] {
-							return
-						}
-						muts := map[string]bool{}
-						for _, m := range gf.row.Mutators[gf.field] {
-							muts[m] = true
-						}
-						write := isWriteAccess(x, stack, muts)
-						if !write && gf.row.WOnly {
-							return
-						}
-						exKey := fd.Name.Name
-						if recvT != "" {
-							exKey = recvT + "." + fd.Name.Name
-						}
-						if _, ex := gf.row.Exempt[exKey]; ex {
-							return
-						}
-						if _, ok := gf.row.ReadsOK[gf.field]; ok && !write {
-							return
-						}
-						need := ModeR
-						modeS := "R"
-						if write {
-							need = ModeW
-							modeS = "W"
-						}
-						k := aggKey{fkey, gf.row.Type + "." + gf.field, modeS}
-						a := aggs[k]
-						if a == nil {
-							a = &agg{first: p.posStr(x.Pos())}
-							aggs[k] = a
-						}
-						a.n++
-						base, okp := pathOf(info, x.X)
-						if !okp {
-							a.bad = append(a.bad, fmt.Sprintf("%s: base of access is not an access path; cannot identify its mutex", p.posStr(x.Pos())))
-							return
-						}
-						base += embeddedChain(sel, len(sel.Index())-1)
-						want := base + "." + gf.row.Mutex
-						if gf.row.ViaRecvType != "" {
-							if recvT != gf.row.ViaRecvType || recvPath == "" {
-								a.bad = append(a.bad, fmt.Sprintf("%s: %s.%s is accessed outside a method of %s, whose mutex guards it", p.posStr(x.Pos()), gf.row.Type, gf.field, gf.row.ViaRecvType))
-								return
-							}
-							want = recvPath + "." + gf.row.Mutex
-						}
-						if held[want] >= need && len(stack) >= 1 {
-							// the guarded container itself (map, slice, channel) handed out by a method that
-							// takes the lock on its own: the caller walks or changes it after the unlock
-							if _, isRet := stack[len(stack)-1].(*ast.ReturnStmt); isRet {
-								switch fv.Type().Underlying().(type) {
-								case *types.Map, *types.Slice:
-									a.bad = append(a.bad, fmt.Sprintf("%s: %s is returned by reference from inside the critical section of %s: the caller reads or ranges over the guarded %s after the lock is released", p.posStr(x.Pos()), displayPath(base)+"."+gf.field, displayPath(want), map[bool]string{true: "map", false: "slice"}[isMapType(fv.Type())]))
-								}
-							}
-						}
-						if held[want] < need && !condLocked(x.Pos(), want) {
-							a.bad = append(a.bad, fmt.Sprintf("%s: %s of %s needs %s held %s, held: %s", p.posStr(x.Pos()), map[bool]string{true: "write", false: "read"}[write], displayPath(base)+"."+gf.field, displayPath(want), modeS, held))
-							fnN := needs[fkey]
-							if fnN == nil {
-								fnN = &fnNeed{row: gf.row, recvOnly: true}
-								needs[fkey] = fnN
-							}
-							if need > fnN.mode {
-								fnN.mode = need
-							}
-							if recvPath == "" || want != recvPath+"."+gf.row.Mutex || (recvT != gf.row.Type && recvT != gf.row.ViaRecvType) || fnN.row.Mutex != gf.row.Mutex || fnN.row.Pkg != gf.row.Pkg {
-								fnN.recvOnly = false
-							}
-						}
+						fieldAccess(x, sel, fv, len(sel.Index())-1, "", stack, held)
 					case *ast.CallExpr:
 						// call of a caller-holds helper
 						se, ok := x.Fun.(*ast.SelectorExpr)
